@@ -203,7 +203,9 @@ Definition sp_snapshot (k : kind) (s : sp) : list obs :=
   | KUnsubscribe =>
     [sN F_packetID s; OL (map OS (s_ufilters s)); oprops (s_uprops s)]
   | KPingReq | KPingResp => []
-  | KDisconnect => [sN F_reasonCode s; oprops (s_uprops s)]
+  | KDisconnect =>
+    [sN F_reasonCode s; sN F_sessionExpiryInterval s; sS F_reasonString s; sS F_serverReference s;
+     oprops (s_uprops s)]
   | KAuth =>
     [sN F_reasonCode s; sS F_reasonString s; sS F_authMethod s; sS F_authData s;
      oprops (s_uprops s)]
